@@ -35,18 +35,33 @@ class Obligation:
         self.expect_sat = kind in ("cover", "canary")
 
 
+class Facts(list):
+    """definitional axiom instances known on a path (+ the set of spec applications already unfolded)"""
+
+    def __init__(self, it=(), unfolded=None):
+        super().__init__(it)
+        self.unfolded = set(unfolded or ())
+
+    def copy(self):
+        return Facts(self, self.unfolded)
+
+
 class State:
     def __init__(self, env=None, pc=None, facts=None):
         self.env = env if env is not None else {}
         self.pc = pc if pc is not None else []
-        self.facts = facts if facts is not None else []
+        if facts is None:
+            facts = Facts()
+        elif not isinstance(facts, Facts):
+            facts = Facts(facts)
+        self.facts = facts
 
     def fork(self):
         env = {}
         memo = {}
         for k, v in self.env.items():
             env[k] = _copy_obj(v, memo)
-        return State(env, list(self.pc), self.facts)  # facts: shared append-only list of valid axiom instances
+        return State(env, list(self.pc), self.facts.copy())
 
     def assume(self, b):
         if isinstance(b, bool):
@@ -232,6 +247,15 @@ class Exec:
         self.unfold_depth = 0
         self.max_unfold = 2
         self.float_mode = getattr(contract, "float_mode", "exact") if contract else "exact"
+
+    def local_sort(self, name):
+        fs = getattr(self, "fn_stack", None)
+        if not fs:
+            return None
+        info = fs[-1][1]
+        if info is None:
+            return None
+        return getattr(info.cls, "locals", {}).get(name)
 
     # ---------------------------------------------------------------- obligations
     def need(self, st, cond, exc, node, what=""):
@@ -482,6 +506,9 @@ class Exec:
                 vals.append(v)
                 if i < len(n.values) - 1:
                     t = self.truth(v)
+                    ts = z3.simplify(t)
+                    if (isinstance(n.op, ast.And) and z3.is_false(ts)) or (isinstance(n.op, ast.Or) and z3.is_true(ts)):
+                        break  # short circuit decided statically: later operands are not evaluated
                     self.guards.append(t if isinstance(n.op, ast.And) else z3.Not(t))
                     pushed += 1
         finally:
@@ -661,6 +688,15 @@ class Exec:
             return VSeq(z3.Concat(sa.term, sb.term), sa.elem, sa.kind)
         if isinstance(a, VSeq) and isinstance(b, VNum) and isinstance(op, ast.Mult):
             return self.replicate(st, a, b)
+        if isinstance(a, VSet) and isinstance(b, VSet) and isinstance(op, (ast.BitOr, ast.BitAnd, ast.Sub)):
+            c = z3.Const(S.fresh_name("c"), S.PyStr)
+            if isinstance(op, ast.BitOr):
+                body = z3.Or(a.term[c], b.term[c])
+            elif isinstance(op, ast.BitAnd):
+                body = z3.And(a.term[c], b.term[c])
+            else:
+                body = z3.And(a.term[c], z3.Not(b.term[c]))
+            return VSet(z3.Lambda([c], body))
         if isinstance(a, VDict) and isinstance(b, VDict) and isinstance(op, ast.BitOr):
             raise OutOfReach("dict union")
         raise OutOfReach(f"binop {type(op).__name__} on {a!r},{b!r}")
@@ -751,13 +787,43 @@ class Exec:
     def norm_index(self, seqlen, i):
         return z3.If(i < 0, i + seqlen, i)
 
+    def known(self, st, cond):
+        """cheap entailment test pc |= cond (used only to simplify terms; `False` is always safe)"""
+        c = z3.simplify(cond)
+        if z3.is_true(c):
+            return True
+        if z3.is_false(c):
+            return False
+        s = z3.Solver()
+        s.set("timeout", 300)
+        s.add(*st.pc)
+        s.add(*self.guards)
+        s.add(z3.Not(c))
+        return s.check() == z3.unsat
+
+    def pyindex(self, st, L, i):
+        """python index normalisation, simplified when the sign is known on this path"""
+        if self.known(st, i >= 0):
+            return i
+        if self.known(st, i < 0):
+            return i + L
+        return z3.If(i < 0, i + L, i)
+
+    def clamp(self, st, L, x):
+        """python slice bound clamping"""
+        if self.known(st, z3.And(x >= 0, x <= L)):
+            return x
+        y = self.pyindex(st, L, x)
+        return z3.If(y < 0, 0, z3.If(y > L, L, y))
+
     def index(self, base, idx, st, node):
         if isinstance(base, VSeq) and isinstance(idx, VNum):
             L = z3.Length(base.term)
             i = idx.term
             self.need(st, z3.And(i >= -L, i < L), "IndexError", node, "sequence index")
-            j = z3.simplify(self.norm_index(L, i)) if not z3.is_int_value(z3.simplify(i)) else (i if z3.simplify(i).as_long() >= 0 else L + i)
+            j = z3.simplify(self.pyindex(st, L, i))
             el = base.term[j]
+            self.seq_index_facts(st, base.term, j, el)
             if getattr(base, "rep_of", None) is not None:
                 st.facts.append(z3.Implies(z3.And(j >= 0, j < L), el == base.rep_of))
             v = S.wrap(base.elem, el)
@@ -775,6 +841,29 @@ class Exec:
             return VNum(base.vals[idx.term], "real" if base.val is S.Real else ("int" if base.val is S.Int else "float"))
         raise OutOfReach(f"subscript of {base!r} by {idx!r}")
 
+    def seq_index_facts(self, st, t, j, el, depth=0):
+        """valid facts of the sequence theory that the solvers do not always find themselves:
+        indexing into a concatenation / a slice"""
+        if depth > 3 or not z3.is_app(t):
+            return
+        k = t.decl().kind()
+        if k == z3.Z3_OP_SEQ_CONCAT:
+            off = z3.IntVal(0)
+            parts = t.children()
+            for p in parts:
+                lp = z3.Length(p)
+                inner = p[j - off]
+                st.facts.append(z3.Implies(z3.And(j >= off, j < off + lp), el == inner))
+                self.seq_index_facts(st, p, z3.simplify(j - off), inner, depth + 1)
+                off = off + lp
+        elif k == z3.Z3_OP_SEQ_EXTRACT:
+            src, o, ln = t.children()
+            inner = src[o + j]
+            st.facts.append(z3.Implies(z3.And(j >= 0, j < ln, o >= 0, o + j < z3.Length(src)), el == inner))
+            self.seq_index_facts(st, src, z3.simplify(o + j), inner, depth + 1)
+        elif k == z3.Z3_OP_SEQ_UNIT:
+            st.facts.append(z3.Implies(j == 0, el == t.children()[0]))
+
     def slice(self, base, sl: ast.Slice, st):
         if sl.step is not None:
             raise OutOfReach("slice step")
@@ -787,14 +876,9 @@ class Exec:
         if not isinstance(base, VSeq):
             raise OutOfReach("slice of non-sequence")
         L = z3.Length(base.term)
-
-        def clamp(x):
-            x = z3.If(x < 0, x + L, x)
-            return z3.If(x < 0, 0, z3.If(x > L, L, x))
-
-        lo = clamp(self.eval(sl.lower, st).term) if sl.lower else z3.IntVal(0)
-        hi = clamp(self.eval(sl.upper, st).term) if sl.upper else L
-        n = z3.If(hi - lo > 0, hi - lo, 0)
+        lo = self.clamp(st, L, self.eval(sl.lower, st).term) if sl.lower else z3.IntVal(0)
+        hi = self.clamp(st, L, self.eval(sl.upper, st).term) if sl.upper else L
+        n = hi - lo if self.known(st, hi >= lo) else z3.If(hi - lo > 0, hi - lo, 0)
         return VSeq(z3.Extract(base.term, z3.simplify(lo), z3.simplify(n)), base.elem, base.kind)
 
     def e_Call(self, n, st):
@@ -948,6 +1032,12 @@ class Exec:
 
     def store(self, target, v, st):
         if isinstance(target, ast.Name):
+            ls = self.local_sort(target.id)
+            if ls is not None:
+                from .calls import coerce
+                v = coerce(self, v, ls, st)
+                if isinstance(v, VSeq) and isinstance(ls, S.Seq):
+                    v = VSeq(v.term, v.elem, ls.kind)
             st.env[target.id] = v
             return
         if isinstance(target, (ast.Tuple, ast.List)):
@@ -997,20 +1087,17 @@ class Exec:
             if isinstance(target.slice, ast.Slice):
                 sl = target.slice
 
-                def clamp(x):
-                    x = z3.If(x < 0, x + L, x)
-                    return z3.If(x < 0, 0, z3.If(x > L, L, x))
-
-                lo = z3.simplify(clamp(self.eval(sl.lower, st).term)) if sl.lower else z3.IntVal(0)
-                hi = z3.simplify(clamp(self.eval(sl.upper, st).term)) if sl.upper else L
-                hi = z3.If(hi < lo, lo, hi)
+                lo = z3.simplify(self.clamp(st, L, self.eval(sl.lower, st).term)) if sl.lower else z3.IntVal(0)
+                hi = z3.simplify(self.clamp(st, L, self.eval(sl.upper, st).term)) if sl.upper else L
+                if not self.known(st, hi >= lo):
+                    hi = z3.If(hi < lo, lo, hi)
                 nv = self.as_seq(v, cur.elem)
                 t = z3.Concat(z3.Extract(cur.term, z3.IntVal(0), lo), nv.term, z3.Extract(cur.term, hi, L - hi))
                 return VSeq(t, cur.elem, cur.kind)
             idx = self.eval(target.slice, st)
             i = idx.term
             self.need(st, z3.And(i >= -L, i < L), "IndexError", target, "sequence store index")
-            j = z3.simplify(self.norm_index(L, i))
+            j = z3.simplify(self.pyindex(st, L, i))
             t = z3.Concat(z3.Extract(cur.term, z3.IntVal(0), j), z3.Unit(self.term_of(v, cur.elem)),
                           z3.Extract(cur.term, j + 1, L - j - 1))
             return VSeq(t, cur.elem, cur.kind)
